@@ -61,7 +61,8 @@ def contains_outside(t, sub, barrier):
             continue
         if x == sub:
             return True
-        if x and x[0] == "call" and isinstance(x[1], str) and (x[1] == barrier or x[1].endswith("::" + barrier)):
+        bs = (barrier,) if isinstance(barrier, str) else tuple(barrier)
+        if x and x[0] == "call" and isinstance(x[1], str) and any(x[1] == b or x[1].endswith("::" + b) for b in bs):
             continue
         st.extend(y for y in x if isinstance(y, tuple))
     return False
